@@ -205,6 +205,26 @@ class FnContract:
         return cs
 
 
+def cancelled_contract(contract, loop=0):
+    """R8c: contract of `vx_cancelled_<m>` - the future of `m` lost a `select!` and is dropped. Assumed: it stops between two
+    iterations of its loop, so what holds is the loop invariant of `m` (proved where `m` is verified, under `m`'s precondition):
+    same requires, ensures = the invariant clauses with `self` read as the final state. Clause ids are kept."""
+    def conv(t):
+        t = t.replace("old(self)", "\x00")
+        t = re.sub(r"\bself\b", "final(self)", t)
+        return t.replace("\x00", "old(self)")
+    c = FnContract(contract.key + ".cancelled", {"props": list(contract.props)})
+    c.requires = [Clause(r.id + ".cancelled", "requires", r.text, r.props, c.key) for r in contract.requires]
+    c.ensures = [Clause(i.id + ".cancelled", "ensures", conv(i.text), i.props, c.key) for i in contract.loops[loop]["invariant"]]
+    return c
+
+
+def cancelled_item(item, method):
+    it = dict(item)
+    it.update({"sig": f"fn vx_cancelled_{method}(&mut self)", "ret": "", "body": "", "rename": {}, "auto_loop_ensures": {}, "rules_fired": {}})
+    return it
+
+
 # --------------------------------------------------------------------------- emission
 LOOP_RE = re.compile(r"\{\s*__vx_loop!\((\d+)\);")
 AT_RE = re.compile(r"^[ \t]*__vx_at!\(\"([^\"]+)\"\);[ \t]*\n", re.M)
